@@ -600,6 +600,12 @@ class QueryObjectDescriptor(CanBehaveLikeAVariable[T], ABC):
                 required_vars.update(conc._unique_variables_)
         return required_vars
 
+    def _reset_only_my_cache_(self) -> None:
+        super()._reset_only_my_cache_()
+        # a selected variable that no condition mentions is not a child of this node in the graph.
+        for variable in self.selected_variables:
+            variable._var_._reset_only_my_cache_()
+
     def _evaluate_(self, selected_vars: Optional[Iterable[CanBehaveLikeAVariable]] = None,
                    sources: Optional[Dict[int, HashedValue]] = None,
                    yield_when_false: bool = False) -> Iterable[Dict[int, HashedValue]]:
@@ -824,6 +830,10 @@ class Variable(CanBehaveLikeAVariable[T]):
     An expression of the constraints added from the keyword arguments of the variable.
     """
     _evaluating_kwargs_expression_: bool = field(default=False, init=False)
+    _domain_is_the_registry_: bool = field(default=False, init=False)
+    """
+    Whether the domain was taken from the registry of instances of the variable type (no domain was given).
+    """
     """
     A flag indicating that the kwargs expression is currently being evaluated so do not evaluate them again, and instead
     yield from the domain.
@@ -835,6 +845,14 @@ class Variable(CanBehaveLikeAVariable[T]):
         super().__post_init__()
         # has to be after super init because this needs the node of this variable to be initialized first.
         self._update_child_vars_from_kwargs_()
+
+    def _reset_only_my_cache_(self) -> None:
+        super()._reset_only_my_cache_()
+        if self._domain_is_the_registry_:
+            # the registry is live, it is read again by the next evaluation.
+            self._domain_ = HashedIterable()
+            self._domain_source_ = None
+            self._domain_is_the_registry_ = False
 
     def _validate_inputs_and_fill_missing_ones_(self):
         if self._kwargs_ and not self._type_:
@@ -909,8 +927,9 @@ class Variable(CanBehaveLikeAVariable[T]):
 
     def _update_domain_and_kwargs_expression_(self):
         self._domain_source_ = From(self._cache_values_)
+        self._domain_is_the_registry_ = True
         self._update_domain_(self._domain_source_.domain)
-        if self._kwargs_:
+        if self._kwargs_ and not self._kwargs_expression_:
             parents = [p for p in self._node_.parents]
             self._kwargs_expression_, attributes = properties_to_expression_tree(self, self._child_vars_)
             self._kwargs_expression_ = An(Entity(self._kwargs_expression_, [self]))
